@@ -10,6 +10,7 @@ import contextlib
 import copy
 import io
 import json
+import re
 import os
 import pickle
 
@@ -29,6 +30,9 @@ def init_worker(datadir):
 
 def nontrivial(res):
     return sum(res['ops'].values()) >= 4 and res['ops_ok'] >= 2
+
+
+_B58_TOKEN = re.compile(r'[1-9A-HJ-NP-Za-km-z]{44,120}')
 
 
 class SecretRegistry:
@@ -77,7 +81,19 @@ class SecretRegistry:
         return None
 
     def search_text(self, text):
-        return self.search_bytes(text.encode('utf-8', 'replace'))
+        hit = self.search_bytes(text.encode('utf-8', 'replace'))
+        if hit:
+            return hit
+        # base58 strings (extended keys, WIFs under any version bytes): search what they decode to for the raw key
+        for tok in _B58_TOKEN.findall(text):
+            try:
+                blob = rcodec.b58decode(tok)
+            except Exception:
+                continue
+            for label, needle in self.items:
+                if label.endswith('/raw') and needle in blob:
+                    return '%s (inside the base58 string %s...)' % (label, tok[:12])
+        return None
 
 
 def walk(obj, reg, seen=None, depth=0, path='obj', db_rows=False):
@@ -411,6 +427,23 @@ class C16Objects:
             if kind == 'HDKey':
                 self.check_text(obj.wif_public(), 'HDKey.wif_public()', primed)
                 self.check_text(obj.wif(is_private=False), 'HDKey.wif(is_private=False)', primed)
+                # public exports under explicit version bytes / script family (the xpub -> ypub / zpub conversion)
+                vb = self.ch.pick('wif_prefix', ['0488b21e', '049d7cb2', '04b24746', '043587cf', '02aa7ed3'])
+                vb = bytes.fromhex(vb) if self.ch.coin('wif_prefix_bytes', 0.5) else vb
+                ow = self.ch.pick('wif_wt', ['segwit', 'p2sh-segwit', 'legacy'])
+                om = self.ch.coin('wif_multisig', 0.3)
+                for name, fn in [('wif_public(prefix)', lambda: obj.wif_public(prefix=vb)),
+                                 ('wif(is_private=False, prefix)', lambda: obj.wif(is_private=False, prefix=vb)),
+                                 ('wif_public(witness_type, multisig)',
+                                  lambda: obj.wif_public(witness_type=ow, multisig=om)),
+                                 ('wif(is_private=False, witness_type, multisig)',
+                                  lambda: obj.wif(is_private=False, witness_type=ow, multisig=om))]:
+                    try:
+                        self.check_text(fn(), 'HDKey.%s' % name, primed)
+                    except StopRun:
+                        raise
+                    except Exception as e:
+                        w.probe('view_raised:%s' % type(e).__name__)
                 if obj.depth == 0:
                     pm = obj.public_master()
                     self.check_public_object(pm, 'HDKey.public_master()', primed)
